@@ -77,7 +77,7 @@ def run_property(pid, tier, seed, jobs):
     _init()
     reg = _G["reg"]
     keys = [k for k, c in reg.items() if not k.startswith("extern:") and not getattr(c, "trusted", False)
-            and pid in c.props]
+            and not getattr(c, "coarse", False) and pid in c.props]
     timeout_ms = 10000 if tier == "quick" else 60000
     if not keys:
         print("no contracts serve %s" % pid)
